@@ -135,6 +135,7 @@ def run(idx, rep, tier):
     rep.rule("R4", "transformer covers the grammar; the parse wrapper is transparent")
     rep.rule("R5", "function factory: every name maps to one existing class")
     rep.rule("R6", "scan/match split")
+    rep.rule("R7", "the raw match text and its hash feed only the parser and the log, never names or values of the run")
     mm = MatchModel(idx)
     rep.analysed(mm.fparse, *[m for n, m in mm.tcls.methods.items() if n != "__init__"], idx.method("ExpressionUtility", "get_name_and_qualifiers"),
                  idx.method("ExpressionUtility", "_parse_quoted"))
@@ -199,6 +200,7 @@ def run(idx, rep, tier):
     r4(idx, rep, mm)
     r5(idx, rep)
     r6(idx, rep)
+    r7(idx, rep)
 
 
 def _respace(t, rnd):
@@ -289,3 +291,40 @@ def r6(idx, rep):
         elif len(ps) != 1 or ps[0].result != ("return", want):
             bad = bad or f"{data!r}: split into {ps[0].result}, documented {want}"
     rep.check(bad is None, "R6", f"{fi.file}::CsvPath._find_scan_and_match_parts table", bad or "", K.where(fi, fi.node))
+
+
+RAW_TEXT_READERS = {
+    # (function, what) -> reason
+    ("ExpressionEncoder", "_id"): "explain/JSON dump of the expression tree (diagnostics only)",
+}
+
+
+def r7(idx, rep):
+    """Matcher._id is sha256 of the raw match part and Matcher.path the raw text itself: both change with layout. Anything that
+    reads them outside the parser/logging makes run results (variable keys, ids) layout-dependent."""
+    n = 0
+    for fi in idx.all_funcs("csvpath/matching/"):
+        for x in walk_no_nested(fi.node):
+            if not (isinstance(x, ast.Attribute) and isinstance(x.ctx, ast.Load)):
+                continue
+            base = unparse(x.value)
+            hit = None
+            if x.attr == "_id" and (base.endswith("matcher") or base in ("m", "matcher") or (fi.cls == "Matcher" and base == "self")):
+                hit = "_id"
+            elif x.attr == "path" and (base.endswith("matcher") or (fi.cls == "Matcher" and base == "self")):
+                hit = "path"
+            if hit is None:
+                continue
+            n += 1
+            ok = (fi.cls, hit) in RAW_TEXT_READERS or (fi.cls == "Matcher" and fi.name in ("__init__", "__str__"))
+            rep.check(ok, "R7", f"{fi.file}::{fi.qual} reads the matcher's {hit}",
+                      f"`{unparse(x)}`: the matcher's id/path derive from the raw text of the match part (whitespace and comments included); using it in ids, variable names or values makes a run depend on layout", K.where(fi, x))
+        # getattr(thing, "matcher") followed by ._id is the same read in disguise
+        for c in walk_no_nested(fi.node):
+            if isinstance(c, ast.Call) and call_name(c) == "getattr" and len(c.args) >= 2 and isinstance(c.args[1], ast.Constant) and c.args[1].value in ("_id", "path") and "matcher" in unparse(c.args[0]):
+                rep.fail("R7", f"{fi.file}::{fi.qual} getattr on the matcher's {c.args[1].value}", unparse(c), K.where(fi, c))
+    fi = idx.method("ExpressionUtility", "get_id")
+    rep.analysed(fi)
+    names = {n.id for n in ast.walk(fi.node) if isinstance(n, ast.Name)} | {n.attr for n in ast.walk(fi.node) if isinstance(n, ast.Attribute)}
+    rep.check(not ({"matcher", "_id", "path", "csvpath", "match"} & names), "R7", f"{fi.file}::ExpressionUtility.get_id depends on the component tree only",
+              f"get_id mentions {sorted({'matcher', '_id', 'path', 'csvpath', 'match'} & names)}: the durable ids of count()/every()/once/onchange must be a function of the parsed components, not of the text", K.where(fi, fi.node))
